@@ -72,6 +72,9 @@ def _UnsupportedType():
 
 def _dispatch(ex, st, f, args, kwargs, node):
     eng = ex.eng
+    if isinstance(f, Const) and f.kind == "typing" and str(f.val).endswith(".cast") and len(args) == 2:
+        yield st, args[1]          # typing.cast(T, x) is x
+        return
     if not isinstance(f, Const):
         if isinstance(f, V) and f.ty == "none":
             if ex.total:
